@@ -11,7 +11,7 @@ METHOD = {"H.Unary": "unary", "H.Retry": "unary", "H.Big": "unary", "H.BigReq": 
 SIMPLE = {"h:rd.msg.pre": "rd.msg", "h:rd.queue.pre": "rd.queue", "h:rd.err": "rd.err", "h:main.ctxdone": "main.ctxdone",
           "h:closechans.pre": "closechans.pre", "h:closechans": "closechans", "h:closeinflight": "closeinflight",
           "h:closehandling": "closehandling", "h:exit.done": "exit.done", "h:ws.done": "ws.done", "h:exec.exit": "exec.exit",
-          "h:fwd.exit": "fwd.exit"}
+          "h:fwd.exit": "fwd.exit", "h:rd.readerr": "rd.readerr", "h:main.readerr": "main.readerr"}
 
 
 class Unsupported(Exception):
@@ -81,6 +81,11 @@ def segments(events):
                 elif k in ("req", "notif"):
                     raise Unsupported("server-to-client request (reverse call)")
             continue
+        if ev == "WireFault":
+            f = str(e.get("fault", ""))
+            if e.get("dir") == "c2s" and (f.startswith("cut-payload") or f.startswith("cut-last")):
+                seg(e["conn"] - 1).append({"e": "peercut"})
+            continue
         if ev == "SrvCancel":
             seg(e["srvconn"] - 1).append({"e": "srvcancel"})
             continue
@@ -120,6 +125,8 @@ def segments(events):
                 s.append({"e": "cancel.recv", "id": tok, "found": bool(e["found"])})
             elif ev == "h:handling.done":
                 s.append({"e": "handling.done", "id": tok})
+            elif ev == "h:chout.reg.pre":
+                s.append({"e": "chout.pre", "id": tok if tok is not None else -1})
             elif ev == "h:fwd.reg":
                 s.append({"e": "fwd.reg", "id": tok, "chid": e["chid"]})
             elif ev == "h:fwd.val":
